@@ -33,7 +33,7 @@ import (
 
 type cs struct {
 	Circ     int      `json:"circuit"`
-	Programs []string `json:"programs"` // one per thread: G garble, g garble with failing randomness, E eval+check newest, R release newest, r release newest twice, C compute+check, S a whole Garbler/Evaluator session on the shared circuit
+	Programs []string `json:"programs"` // one per thread: G garble, g garble with failing randomness, E eval+check newest, R release newest, r release newest twice, d release the most recently released garbling once more (stale handle), C compute+check, S a whole Garbler/Evaluator session on the shared circuit
 	F        int      `json:"f,omitempty"`
 	P        int      `json:"p"`
 	E        int      `json:"e"`
@@ -204,6 +204,7 @@ func (w *world) session(tid int, x int) {
 func (w *world) thread(tid int, prog string) func() {
 	return func() {
 		var mine []*live
+		var released []*circuit.Garbled
 		key := make([]byte, 16)
 		for i := range key {
 			key[i] = byte(17*tid + i + 1)
@@ -244,6 +245,12 @@ func (w *world) thread(tid int, prog string) func() {
 					if op == 'r' {
 						l.g.Release()
 					}
+					released = append(released, l.g)
+				}
+			case 'd':
+				// a late second Release through a stale handle: others may have garbled in between
+				if len(released) > 0 {
+					released[len(released)-1].Release()
 				}
 			case 'C':
 				w.checkCompute(tid)
@@ -378,8 +385,8 @@ func work(ctx *runner.Ctx) {
 	if err := csched.SelfTest(); err != nil {
 		panic(err)
 	}
-	progs2 := []string{"GER", "GRGE", "GErr", "C", "gGER", "GGERR", "GREG"}
-	progs3 := []string{"GER", "GRGE", "C", "gGE"}
+	progs2 := []string{"GER", "GRGE", "GErr", "C", "gGER", "GGERR", "GREG", "GRdGE"}
+	progs3 := []string{"GER", "GRGE", "C", "gGE", "GRd"}
 	var cases []cs
 	// whole protocol sessions sharing the circuit with each other and with direct users
 	for _, ci := range sessionCircuits {
